@@ -30,7 +30,14 @@ def run(ctx):
             samples = [{"run": k + 1, "cut_offset_range": [k * step, k * step + step - 1]} for k in (0, 1, n - 1)]
     cr, csum = wakefam.run_create(ctx)
     br, bsum = wakefam.run_blocked(ctx)
+    # rpc calls whose connection is lost at any point of the call (scripts of SvcCall.tla, a proxy cuts the connection)
+    from vlib import svcfam
+    sr, sfiles = svcfam.scripts(ctx, drop=True)
+    dsum = svcfam.run_rpc(ctx, sfiles[1:], 1500 if ctx.quick() else 20000)
     ctx.coverage = {
+        "rpc_calls_losing_their_connection": {"model": "SvcCall.tla", "executed": dsum["scripts"], "generated": dsum["of"],
+                                              "rule": "no operation of either side hangs, the caller never gets OK unless its handler returned OK "
+                                                      "before the loss (then with its bytes), and the on-demand client completes a call right afterwards"},
         "blocked_on_full_queue": {"model": "MpxBlocked.tla", "schedules_replayed": bsum["schedules"], "conclusive": bsum["conclusive"],
                                   "rule": "a Send / SendAndClose / Free blocked on the full write queue returns when the connection is dropped "
                                           "(non-OK for the sends, silently for Free), in every order with the peer's close of that channel"},
